@@ -1140,8 +1140,19 @@ func (c *SpecCtx) call(e *Expr, pos bool) *Term {
 		return c.frameClause(e, name == "unchanged")
 	case "startTrace":
 		// startTrace(n): the ghost trace at the head of loop n, in the current iteration
-		if c.frame == nil || e.Args[0].Op != "int" {
-			c.fail("startTrace(n) needs a loop ordinal and a loop context")
+		if e.Args[0].Op != "int" {
+			c.fail("startTrace(n) needs a loop ordinal")
+		}
+		if c.frame == nil {
+			// in a postcondition: the head of the last iteration of loop n on this path, or an unconstrained trace if the
+			// path never reached the loop (the clause must guard its use)
+			for ord, t := range c.st.loopTrace {
+				if fmt.Sprint(ord) == e.Args[0].Name {
+					return t
+				}
+			}
+			c.x.reg.SeqSort("Ev")
+			return c.st.Fresh("notrace", "Seq_Ev")
 		}
 		for _, en := range c.frame.active {
 			if fmt.Sprint(en.ordinal) == e.Args[0].Name {
@@ -1196,7 +1207,7 @@ func (c *SpecCtx) call(e *Expr, pos bool) *Term {
 		// boxframe(r): in every boxed-value heap array only index r may differ from the pre-state
 		r := arg(0)
 		var cs []*Term
-		for _, n := range x.reg.heapOrd {
+		for _, n := range x.reg.HeapNames() {
 			if !strings.HasPrefix(n, "B_") {
 				continue
 			}
